@@ -28,6 +28,7 @@ import (
 
 	"github.com/prometheus/prometheus/model/histogram"
 	"github.com/prometheus/prometheus/model/labels"
+	"github.com/prometheus/prometheus/model/value"
 	"github.com/prometheus/prometheus/storage"
 	"github.com/prometheus/prometheus/tsdb"
 	"github.com/prometheus/prometheus/tsdb/chunkenc"
@@ -553,9 +554,14 @@ const (
 	KFloat SampleKind = iota
 	KHistogram
 	KFloatHistogram
+	KNHCB      // integer native histogram with custom buckets
+	KFloatNHCB // float native histogram with custom buckets
+	KStale     // float staleness marker (value.StaleNaN); the head may store it as a histogram staleness marker
 )
 
-func (k SampleKind) String() string { return [...]string{"float", "histogram", "float-histogram"}[k] }
+func (k SampleKind) String() string {
+	return [...]string{"float", "histogram", "float-histogram", "nhcb", "float-nhcb", "stale"}[k]
+}
 
 // OpenTx is an appender that has not been committed or rolled back yet.
 type OpenTx struct {
@@ -581,6 +587,17 @@ func minimalHistograms(v float64) (*histogram.Histogram, *histogram.FloatHistogr
 func (o *OpenTx) Append(l labels.Labels, t int64, v float64, k SampleKind) error {
 	h, fh := minimalHistograms(v)
 	var err error
+	switch k {
+	case KNHCB:
+		h = &histogram.Histogram{Schema: histogram.CustomBucketsSchema, Count: 1, Sum: v, PositiveSpans: []histogram.Span{{Offset: 0, Length: 1}}, PositiveBuckets: []int64{1}, CustomValues: []float64{1}}
+		k = KHistogram
+	case KFloatNHCB:
+		fh = &histogram.FloatHistogram{Schema: histogram.CustomBucketsSchema, Count: 1, Sum: v, PositiveSpans: []histogram.Span{{Offset: 0, Length: 1}}, PositiveBuckets: []float64{1}, CustomValues: []float64{1}}
+		k = KFloatHistogram
+	case KStale:
+		v = math.Float64frombits(value.StaleNaN)
+		k = KFloat
+	}
 	switch {
 	case o.v2 != nil && k == KFloat:
 		_, err = o.v2.Append(0, l, 0, t, v, nil, nil, storage.AppendV2Options{})
@@ -632,5 +649,112 @@ func (d *DB) SampleTimes(mint, maxt int64, ms ...*labels.Matcher) (map[string][]
 			return nil, it.Err()
 		}
 	}
+	return out, ss.Err()
+}
+
+// TypedSample is one sample of any kind as a query returned it: Kind is KFloat, KHistogram,
+// KFloatHistogram, KNHCB, KFloatNHCB (by value type and schema) or KStale (a float or histogram whose
+// value / Sum is the staleness NaN); Digest is the float value or the histogram's Sum (0 for
+// KStale); Count is the histogram's Count (0 for floats).
+type TypedSample struct {
+	T      int64
+	Kind   SampleKind
+	Digest float64
+	Count  float64
+}
+
+// TypedSeries is one series of a typed query result.
+type TypedSeries struct {
+	Labels  string
+	Samples []TypedSample
+}
+
+func typedAt(it chunkenc.Iterator, vt chunkenc.ValueType) TypedSample {
+	switch vt {
+	case chunkenc.ValFloat:
+		t, v := it.At()
+		if value.IsStaleNaN(v) {
+			return TypedSample{T: t, Kind: KStale}
+		}
+		return TypedSample{T: t, Kind: KFloat, Digest: v}
+	case chunkenc.ValHistogram:
+		t, h := it.AtHistogram(nil)
+		if value.IsStaleNaN(h.Sum) {
+			return TypedSample{T: t, Kind: KStale}
+		}
+		k := KHistogram
+		if h.Schema == histogram.CustomBucketsSchema {
+			k = KNHCB
+		}
+		return TypedSample{T: t, Kind: k, Digest: h.Sum, Count: float64(h.Count)}
+	default:
+		t, h := it.AtFloatHistogram(nil)
+		if value.IsStaleNaN(h.Sum) {
+			return TypedSample{T: t, Kind: KStale}
+		}
+		k := KFloatHistogram
+		if h.Schema == histogram.CustomBucketsSchema {
+			k = KFloatNHCB
+		}
+		return TypedSample{T: t, Kind: k, Digest: h.Sum, Count: h.Count}
+	}
+}
+
+// QueryTyped is Query for all sample kinds (Querier.Select), ChunkQueryTyped the same through
+// ChunkQuerier.Select with every chunk decoded (samples outside [mint,maxt] are dropped).
+func (d *DB) QueryTyped(mint, maxt int64, ms ...*labels.Matcher) ([]TypedSeries, error) {
+	q, err := d.DB.Querier(mint, maxt)
+	if err != nil {
+		return nil, err
+	}
+	defer q.Close()
+	ss := q.Select(context.Background(), true, nil, ms...)
+	var out []TypedSeries
+	for ss.Next() {
+		s := ss.At()
+		r := TypedSeries{Labels: s.Labels().String()}
+		it := s.Iterator(nil)
+		for vt := it.Next(); vt != chunkenc.ValNone; vt = it.Next() {
+			r.Samples = append(r.Samples, typedAt(it, vt))
+		}
+		if it.Err() != nil {
+			return nil, it.Err()
+		}
+		out = append(out, r)
+	}
+	sort.SliceStable(out, func(i, j int) bool { return out[i].Labels < out[j].Labels })
+	return out, ss.Err()
+}
+
+func (d *DB) ChunkQueryTyped(mint, maxt int64, ms ...*labels.Matcher) ([]TypedSeries, error) {
+	q, err := d.DB.ChunkQuerier(mint, maxt)
+	if err != nil {
+		return nil, err
+	}
+	defer q.Close()
+	ss := q.Select(context.Background(), true, nil, ms...)
+	var out []TypedSeries
+	for ss.Next() {
+		s := ss.At()
+		r := TypedSeries{Labels: s.Labels().String()}
+		it := s.Iterator(nil)
+		for it.Next() {
+			ci := it.At().Chunk.Iterator(nil)
+			for vt := ci.Next(); vt != chunkenc.ValNone; vt = ci.Next() {
+				x := typedAt(ci, vt)
+				if x.T >= mint && x.T <= maxt {
+					r.Samples = append(r.Samples, x)
+				}
+			}
+			if ci.Err() != nil {
+				return nil, ci.Err()
+			}
+		}
+		if it.Err() != nil {
+			return nil, it.Err()
+		}
+		out = append(out, r)
+	}
+	sort.SliceStable(out, func(i, j int) bool { return out[i].Labels < out[j].Labels })
 	return out, ss.Err()
 }
